@@ -528,7 +528,7 @@ func init() {
 	Register(&Engine{
 		Prop: "C17", Name: "handlediff/closed+unlink", Run: runC17,
 		Trials: map[string]int{"quick": 40000, "thorough": 400000},
-		Rule:   "three drawn modes. closed: a handle (read-only/write-only/read-write/append/directory) on mem, keyvalue over both SimStore flavours, mount, Sub, cache and tar is closed and 1-8 drawn methods are called on it, each judged against the same call on a closed os.File; siblings: 2-3 handles on one file with Close/Seek/Read/Write interleaved, every handle's offset and validity compared with os after each call; unlink: Remove/Rename/RemoveAll of the path or an ancestor interleaved with writes through handles opened before, the set of names compared with os after every step; non-trivial = the mode reached its judged phase",
+		Rule:   "three drawn modes. closed: a handle (read-only/write-only/read-write/append/directory) on mem, keyvalue over both SimStore flavours, mount, Sub, cache and tar is closed and 1-8 drawn methods are called on it, each judged against the same call on a closed os.File; siblings: 2-3 handles on one file with Close/Seek/Read/Write interleaved, every handle's offset and validity compared with os after each call; unlink: Remove/Rename/RemoveAll of the path or an ancestor interleaved with writes through handles opened before, the set of names compared with os after every step; non-trivial = the mode reached its judged phase Calls on closed handles must report no bytes and no offset.",
 		Components: map[string][]string{
 			"real": {"keyvalue handles", "cache dir/file handles", "tar ReaderFS (real goroutines, joined before the judged phase)", "mount.FS", "Sub", "os.File"},
 			"stub": {"SimStore (keyvalue kinds)"},
